@@ -69,7 +69,17 @@ function dump(o){
   for (var i=0;i<ks.length;i++){ if(i) s+=";"; s+=rkey(ks[i])+"="+rdesc(R_gopd(o,ks[i])) }
   return s;
 }
+// conversion sentinels: no internal-method operation on these object kinds may call toString / valueOf of an object
+// (error-message formatting included); the replacements never run the originals (Array.prototype.toString on a huge
+// length would not return)
+var conv="";
+function mkConv(name,self){ return function(){ 'use strict'; conv+=name+"("+typeof this+")|"; return self ? this : "[conv]" } }
+O_dp(O.prototype,"toString",{value:mkConv("Object.prototype.toString",false)});
+O_dp(O.prototype,"valueOf",{value:mkConv("Object.prototype.valueOf",true)});
+O_dp(ArrP,"toString",{value:mkConv("Array.prototype.toString",false)});
+O_dp(Function.prototype,"toString",{value:mkConv("Function.prototype.toString",false)});
 var D=O_create(null);
+D.takeConv=function(){ var c=conv; conv=""; return c };
 D.reg=reg; D.render=render; D.thrown=thrown;
 D.byName=function(n){ return names[n] };
 D.setAnonFn=function(b){ anonFn=b };
